@@ -309,6 +309,7 @@ static void compute_expect(const Particle& top, Expect& ex) {
 // (the list KNOWN_DEFECTS with all diagnosed defects lives in c08_spaces.hpp; D1 is entry 0)
 extern const char* const KNOWN_DEFECTS[];
 extern bool g_skip_known;
+extern bool g_defect_active[6];
 static bool has_counter_occ(const Particle& p) {
     bool simple = (p.occ.max == 1 && p.occ.min <= 1) || (p.occ.max == UNB && p.occ.min <= 1);
     if (!simple) return true;
@@ -429,11 +430,11 @@ static void run_particle(uint64_t idx, Ctx& c) {
         for (size_t w = 0; w < nwords; w++) {
             if ((bool)got[w] == (bool)ex.invalid[w]) continue;
             std::string fields = desc + "," + cs + ",\"word\":" + jstr(word_str(ex.words[w])) + ",\"instance\":" + jstr(word_line(ex.words[w])) + ",\"schema\":" + jstr(xsd);
-            if (d1_predicate(top, k.full)) {
+            if (g_defect_active[0] && d1_predicate(top, k.full)) {
                 if (g_skip_known) { c.count(std::string("known_defect:") + KNOWN_DEFECTS[0]); break; }
                 fields += std::string(",\"defect\":") + jstr(KNOWN_DEFECTS[0]);
                 c.count(std::string("tagged:") + KNOWN_DEFECTS[0]);
-            } else if (d6_predicate(top)) {
+            } else if (g_defect_active[5] && d6_predicate(top)) {
                 if (g_skip_known) { c.count(std::string("known_defect:") + KNOWN_DEFECTS[5]); break; }
                 fields += std::string(",\"defect\":") + jstr(KNOWN_DEFECTS[5]);
                 c.count(std::string("tagged:") + KNOWN_DEFECTS[5]);
@@ -467,7 +468,9 @@ int main(int argc, char** argv) {
         g_wordcap = (size_t)a.num("wordcap", 6000);
         g_alldeep_max = (size_t)a.num("alldeepmax", 800);
         g_cfgmask = (unsigned)a.num("cfgs", 0xff);
-        g_skip_known = a.str("known", "report") == "skip";
+        g_skip_known = a.str("known", "skip") == "skip";
+        probe_defects();
+        for (int i = 0; i < 6; i++) if (a.num("assume-fixed", 0) & (1 << i)) g_defect_active[i] = false;   // development aid: pretend the witness of defect i passes
         g_ncfg = (int)a.num("ncfg", tier == "thorough" ? 8 : 4);
         build_particle_space(tier, a.str("family", "all"));
         // schemas with many words: all words on IG/SAX2/full and SG/DOM/nofull, the other six configurations on the words of length <= shallow
